@@ -111,6 +111,9 @@ def make_jobs(ctx):
         jobs.append(Job("R." + fn, os.path.join(H, "c05_bulk.c"), entry=h, includes=inc, enforce=[(fn, "c_" + fn)],
                         funcs=["w2c2_base.h:" + fn], replay=gen_replay, bounded="memory object of 12 bytes, lengths <= 12 (functions are uniform in the object size)",
                         info=dict(layer="R")))
+    for h, fn in (("h_fill_large", "wasmMemoryFill"), ("h_copy_large", "wasmMemoryCopy")):
+        jobs.append(Job("R.%s.any_count" % fn, os.path.join(H, "c05_bulk_large.c"), entry=h, includes=inc, funcs=["w2c2_base.h:" + fn], replay=gen_replay,
+                        info=dict(layer="R", note="memset / memmove are recorders: every address, value and count 0..2^32-1")))
     jobs += g_probes(ctx)
     jobs += expr_jobs(ctx, ["load", "store", "memory_size", "memory_grow"])
     # data segments kept outside the C file (-d gnu-ld): the bytes memory.init / the active segments copy come from blob offsets that must count
